@@ -2,12 +2,12 @@
 # usage: run_seed.sh <seeded dir name> <Cxx> [tier]
 # Applies a seeded change to a scratch worktree of /repo (never to /repo itself), points the check at it
 # through GIN_REPO, and removes the worktree afterwards.
-d=/verif/seeded/$1; prop=$2; tier=${3:-quick}
+here="$(cd "$(dirname "$0")/.." && pwd)"; d=$here/seeded/$1; prop=$2; tier=${3:-quick}
 wt=/tmp/seedrun_$1_$$
 git -C /repo worktree add -q --detach $wt HEAD || exit 2
 trap 'git -C /repo worktree remove --force '$wt' 2>/dev/null' EXIT
 ( cd $wt && git apply $d/patch.diff ) || { echo "$1: patch does not apply"; exit 2; }
-cd /verif && GIN_REPO=$wt bin/check $prop --tier $tier > /tmp/run_seed_$1_$prop.log 2>&1; rc=$?
+cd $here && GIN_REPO=$wt bin/check $prop --tier $tier > /tmp/run_seed_$1_$prop.log 2>&1; rc=$?
 nv=$(grep -c '^VIOLATION' /tmp/run_seed_$1_$prop.log)
 echo "$1 vs $prop($tier): exit=$rc violations=$nv  $(grep -m1 -A1 '^VIOLATION' /tmp/run_seed_$1_$prop.log | tail -1 | cut -c1-200)"
 exit $rc
